@@ -51,7 +51,7 @@ contract('Client._flush_pipeline', module=M, props=['C10'],
                                   'alloc_ordered(old(seq(self.reply_queue)))'])})
 
 contract('Client.custom_command', module=M, props=['C10'],
-         params={'self': 'Client', 'command': 'Bytes', 'arg': 'Opt[Bytes]'}, returns='Reply',
+         params={'self': 'Client', 'command': 'Bytes', 'arg': 'Opt[Bytes]'}, returns='Reply', defaults={'arg': 'None'},
          requires=['CLIENT_ok(self)', 'in_timeout_scope()'],
          # one command sent, one reply object returned, and it holds the reply to THIS command: the one that
          # follows the replies still owed to earlier (pipelined) commands
@@ -89,3 +89,44 @@ for _m, _arg in (('send_data', {'*data': 'Args0'}), ('send_empty_data', {})):
                                  'CLIENT_ok(self)',
                                  'forall(ret, lambda t: t[1] != None and fresh(t[1]))',
                                  'forall(self.rcpttos, lambda t: t[1] != None and allocated(t[1]) and t[1].code is not None)'])})
+
+# ---------------------------------------------------------------------------- the other command methods (C10)
+# Every command method creates ONE reply object, queues it LAST (so it is paired with the reply that follows the ones
+# already owed), sends ONE command, and flushes unless the command is pipelined and the server advertised PIPELINING.
+extern('Client._encode', params={'self': 'Client', 'thing': 'Any'}, returns='Bytes', pure=True,
+       notes='Client._encode: utf-8 / ascii encoding of an address (opaque; C06 territory)')
+extern('Client._xtext', params={'self': 'Client', 'thing': 'Any'}, returns='Bytes', pure=True)
+klass('Client', fields={'extensions': 'Extensions'})
+CL_RAISES = {'ConnectionLost': [], 'BadReply': [], 'Timeout': [], 'OSError': []}
+CL_MOD = ['contents(self.reply_queue)', 'any(Reply).code', 'any(Reply).message', 'self.io.next_reply',
+          'self.last_error', 'fresh']
+OWN_REPLY = 'result.code == self.io.script[old(self.io.next_reply) + old(len(self.reply_queue))]'
+FLUSHED = ['len(self.reply_queue) == 0',
+           'self.io.next_reply == old(self.io.next_reply) + old(len(self.reply_queue)) + 1']
+
+for _m, _p in (('get_reply', {'command': 'Bytes'}), ('get_banner', {}), ('data', {}), ('rset', {}), ('quit', {})):
+    p = {'self': 'Client'}
+    p.update(_p)
+    contract('Client.' + _m, module=M, props=['C10'], params=p, returns='Reply',
+             defaults={'command': 'b"[TIMEOUT]"'} if _m == 'get_reply' else {},
+             requires=['CLIENT_ok(self)', 'in_timeout_scope()'],
+             ensures=['result != None', 'fresh(result)', OWN_REPLY] + FLUSHED,
+             checks=(['ncalls("IO.send_command") == 0'] if _m in ('get_reply', 'get_banner') else []),
+             raises=CL_RAISES, modifies=CL_MOD)
+
+for _m, _p in (('mailfrom', {'address': 'Any', 'data_size': 'Opt[Int]', 'auth': 'Any'}), ('rcptto', {'address': 'Any'})):
+    p = {'self': 'Client'}
+    p.update(_p)
+    contract('Client.' + _m, module=M, props=['C10'], params=p, returns='Reply',
+             defaults={'data_size': 'None', 'auth': 'None'} if _m == 'mailfrom' else {},
+             requires=['CLIENT_ok(self)', 'in_timeout_scope()', 'self.extensions != None'],
+             ensures=['result != None', 'fresh(result)',
+                      # pipelined: the reply object waits LAST in the queue, nothing has been read
+                      'implies("PIPELINING" in self.extensions, len(self.reply_queue) == old(len(self.reply_queue)) + 1 '
+                      '        and same(self.reply_queue[len(self.reply_queue) - 1], result) '
+                      '        and self.io.next_reply == old(self.io.next_reply) '
+                      '        and forall(range(0, old(len(self.reply_queue))), lambda j: same(self.reply_queue[j], old(seq(self.reply_queue))[j])))',
+                      # not pipelined: flushed at once, the object holds the reply to this very command
+                      'implies(not ("PIPELINING" in self.extensions), ' + OWN_REPLY + ' and ' + ' and '.join(FLUSHED) + ')'],
+             checks=['ncalls("IO.send_command") == 1'],
+             raises=CL_RAISES, modifies=CL_MOD)
